@@ -29,7 +29,7 @@ RULE = (
     "instance x complete feasible schedule that is dispatcher-built (optionally with a built-in or user-written ready-operations filter installed and queried; operations are dispatched from all ready ones), CP-SAT "
     "built, or right-shifted (feasible, not semi-active): exact edge set, "
     "acyclic (own Kahn sort), longest duration-weighted source-sink path (own "
-    "DP) <= makespan and == makespan for dispatcher-built schedules. "
+    "DP) <= makespan and == makespan for dispatcher-built schedules; a second, different schedule of the same instance object is then encoded and both graphs are verified again. "
     "Non-trivial: >=2 jobs sharing a machine; solved: critical path crosses "
     ">=2 machines."
 )
@@ -279,6 +279,7 @@ def check_solved(ctx, case):
     inst = case["inst"]
     instance = build_instance(inst)
     sched, how = build_schedule(case, inst, instance)
+    g = None
     rows = fp.schedule_rows(sched)
     probs = feasible.problems(inst["durations"], inst["machines"], rows, partial=False)
     if probs or not feasible.is_complete(inst["durations"], rows):
@@ -286,13 +287,31 @@ def check_solved(ctx, case):
         ctx.check(how == "cpsat", "harness-schedule", f"check built an infeasible {how} schedule: {probs}")
         return
     g = build_solved_disjunctive_graph(sched)
+    _verify_solved(ctx, inst, sched, how, g, "")
+    # a second, different schedule of the SAME instance object is encoded;
+    # both graphs are then looked at again
+    d2 = Dispatcher(instance)
+    m2 = ref(inst)
+    while not m2.complete():
+        j, p = m2.ready()[-1]
+        x = inst["machines"][j][p][-1]
+        d2.dispatch(instance.jobs[j][p], x)
+        m2.apply(j, x)
+    g2 = build_solved_disjunctive_graph(d2.schedule)
+    _verify_solved(ctx, inst, d2.schedule, "dispatcher", g2, "second schedule of the same instance: ")
+    _verify_solved(ctx, inst, sched, how, g, "first graph, after a second schedule of the same instance was encoded: ")
+    ctx.label("solved=" + how, *gen.inst_labels(inst))
+
+
+def _verify_solved(ctx, inst, sched, how, g, tag):
+    rows = fp.schedule_rows(sched)
     d = inst["durations"]
     flat = [(j, p) for j in range(len(d)) for p in range(len(d[j]))]
     oid = {op: k for k, op in enumerate(flat)}
     n = len(flat)
     src, snk = n, n + 1
     want_nodes = [(oid[op], "OPERATION", op) for op in flat] + [(src, "SOURCE", None), (snk, "SINK", None)]
-    ctx.check(real_nodes(g) == want_nodes, "solved-nodes", f"solved graph nodes {real_nodes(g)}")
+    ctx.check(real_nodes(g) == want_nodes, "solved-nodes", f"{tag}solved graph nodes {real_nodes(g)}")
     req = {}
     for j, row in enumerate(d):
         for p in range(1, len(row)):
@@ -309,13 +328,13 @@ def check_solved(ctx, case):
     got = {(u, v): edge_type(data) for u, v, data in g.graph.edges(data=True)}
     missing = [e for e in req if e not in got]
     extra = [e for e in got if e not in req]
-    ctx.check(not missing, "solved-missing-edges", f"{how} schedule {rows}: solved graph lacks edges {[(flat[u] if u < n else u, flat[v] if v < n else v) for u, v in missing]}")
-    ctx.check(not extra, "solved-extra-edges", f"{how} schedule: solved graph has unexpected edges {extra[:6]}")
+    ctx.check(not missing, "solved-missing-edges", f"{tag}{how} schedule {rows}: solved graph lacks edges {[(flat[u] if u < n else u, flat[v] if v < n else v) for u, v in missing]}")
+    ctx.check(not extra, "solved-extra-edges", f"{tag}{how} schedule: solved graph has unexpected edges {extra[:6]}")
     wrong = [e for e in req if req[e] is not None and got.get(e) != req[e]]
-    ctx.check(not wrong, "solved-edge-type", f"solved graph edge types wrong for {wrong[:6]}")
+    ctx.check(not wrong, "solved-edge-type", f"{tag}solved graph edge types wrong for {wrong[:6]}")
     durs = [d[j][p] for (j, p) in flat]
     dag, length, path = longest_path(n, durs, list(got), src, snk)
-    ctx.check(dag, "solved-cyclic", f"{how} schedule {rows}: solved graph has a cycle")
+    ctx.check(dag, "solved-cyclic", f"{tag}{how} schedule {rows}: solved graph has a cycle")
     mk = feasible.makespan(rows)
     ctx.check(
         length is not None and length <= mk,
@@ -330,9 +349,8 @@ def check_solved(ctx, case):
         )
     where = {(r[0], r[1]): r[4] for lst in rows for r in lst}
     machines_on_path = {where[flat[u]] for u in path if u < n}
-    ctx.label("solved=" + how, *gen.inst_labels(inst))
     ctx.count("solved_graphs")
-    ctx.nontrivial = len(machines_on_path) >= 2
+    ctx.nontrivial = ctx.nontrivial or len(machines_on_path) >= 2
 
 
 def check_case(case, ctx):
